@@ -11,7 +11,7 @@ _E = [0, 1, 2]
 
 
 def network(us_net="A", us_sp="A"):
-    sp = [Species("A", density={"e0": 2.5, "e1": 0.75}, chstt={"e1": True}, units_system=SYS[us_sp]),
+    sp = [Species("A", density={"e0": 2.5, "e1 , e2": 0.75}, chstt={"e1": True}, units_system=SYS[us_sp]),      # a grouped key, with blanks around the comma
           Species("B", density={"e2": 4.0, "default": 1.25}, chstt=True, units_system=SYS[us_sp]),
           Species("C", density=3.5, chstt={"e0": 1, "default": 0}, units_system=SYS[us_sp]),
           Species("D", chstt={"e1": False, "e2": 0, "default": True}, density={"e0": 0, "default": 1.5}, units_system=SYS[us_sp])]
@@ -20,7 +20,7 @@ def network(us_net="A", us_sp="A"):
 
 def expected_density(s, env):
     """molecules... in the species' own units: the per-environment value, else 'default', else 0"""
-    return [{"e0": 2.5, "e1": 0.75}.get(env, 0.0), {"e2": 4.0}.get(env, 1.25), 3.5, {"e0": 0.0}.get(env, 1.5)][s]
+    return [{"e0": 2.5, "e1": 0.75, "e2": 0.75}.get(env, 0.0), {"e2": 4.0}.get(env, 1.25), 3.5, {"e0": 0.0}.get(env, 1.5)][s]
 
 
 def expected_flag(s, env):
